@@ -268,6 +268,7 @@ pub fn run(tier: &str) -> Vec<Grid> {
     let mut g = Grid::new("c11.addresses", "payload shape x handle kind x into/from pairing: pointer handed out == address Deref yields, heap_ptr == block start recorded by the allocator, stable across clones/moves, round trip recovers same block/contents/count and releases cleanly; size/niche table");
     let gr = &mut g;
     all_shapes!(for_each_shape, sized, (gr));
+    for_each_shape!(sized, (gr); [S300a1, S258a2, S260a4, S1000a8, S320a64]);
     all_shapes!(for_each_shape, slices, (gr));
     if tier == "thorough" {
         all_shapes!(for_pairs, thin, (gr));
